@@ -252,6 +252,42 @@ func lastField(res string) string {
 
 // ---------- C09 ----------
 
+// fillOutOfDomain: fills dominated by out-of-domain and wrongly typed values (C12: a fill stores
+// exactly what was passed or refuses, as the factory does)
+func fillOutOfDomain(c *Ctx) []Case {
+	var out []Case
+	for i := 0; i < c.N(2500); i++ {
+		names := &nameGen{}
+		o := GenOpt{MaxDepth: 3, MaxSlots: 4, PVar: 0.5, names: names}
+		tmpl := genNode(c.R, &o, 0)
+		var vars []varRef
+		collectVars(tmpl, &vars)
+		if len(vars) == 0 {
+			continue
+		}
+		asg := map[string]FillVal{}
+		var keys []string
+		for _, v := range vars {
+			if c.R.Intn(3) == 0 {
+				continue
+			}
+			asg[v.name] = genFillVal(c.R, v.node, 0.6, names)
+			keys = append(keys, v.name)
+		}
+		op := "fillitem " + tmpl.Proto() + " | " + envTokens(asg, keys)
+		impl := implEval(op)
+		cs := Case{Op: op, Impl: impl, Decisive: true, Nontrivial: len(keys) > 0, Tags: []string{"fill-bad:" + map[bool]string{true: "refused", false: "stored"}[lastField(impl) == "PANIC"]}}.fields(itemKeys)
+		if direct := substitute(tmpl, asg); direct != nil {
+			want, _ := implItem(direct)
+			if got := lastField(impl); got != want {
+				cs.Oracle = "a fill stores or refuses differently from the factory: " + firstDiff(got, want)
+			}
+		}
+		out = append(out, cs)
+	}
+	return out
+}
+
 func suiteC09(c *Ctx) []Suite {
 	return []Suite{
 		{Name: "fill/substitution-and-composition", Gen: func(c *Ctx) []Case {
